@@ -320,6 +320,14 @@ def replay(f):
                 created = v != 0 and v not in S0["nodes"]
                 return (got != v) if created else (got is not None), f"emitted {emitted1}, created={created}"
             return got is not None, f"emitted {emitted1}"
+        if inp.get("enable_mid"):
+            mid = inp["enable_mid"]
+            tr.enable_features([mid])
+            if mid in RP_KEYS:
+                rpk = rpk + [mid]
+            rm = state_checks(":after_mid_enable")
+            if rm is not None:
+                return rm[0], detail + " (after enabling " + mid + ") " + rm[1]
         del emitted[:]
         try:
             tr.undo()
